@@ -212,7 +212,7 @@ def real_events(case):
     return out
 
 
-def compare(cases, outs, res, reparse):
+def compare(cases, outs, res, reparse, streams=(0, 1, 2, 3)):
     lines, idx = [], []
     for i, c in enumerate(cases):
         if outs[i] is None:
@@ -224,8 +224,9 @@ def compare(cases, outs, res, reparse):
             continue
         ls[2] = proto.line(A('C01'), A('read'), A(c['method']), outs[i])
         for j, l in enumerate(ls):
-            lines.append(l)
-            idx.append((i, j))
+            if j in streams:
+                lines.append(l)
+                idx.append((i, j))
     answers = proto.run_lines(lines)
     for (i, j), ans in zip(idx, answers):
         stream = ['render-text', 'template-events', 'reader-vs-independent-parser', 'lean-spec-vs-generator-spec'][j]
